@@ -254,6 +254,7 @@ def check_value(T, v: Any, indent: Optional[str], res: core.CaseResult, *, deep:
     if not _same(back.value, v):
         res.fail(f'C12/from_value-raw-reads-as-other-value[{name}]',
                  f'{name}.from_raw_text({call}.raw_text == {raw!r}).value == {back.value!r}', mini)
+        return      # parse_token and the file parse go through the same from_raw_text: one defect, one key
     if back.raw_text != raw:
         res.fail(f'C12/from_raw_text-alters-text[{name}]', f'{name}.from_raw_text({raw!r}).raw_text == {back.raw_text!r}', mini)
     if indent is not None and back.indent != indent:
@@ -678,7 +679,9 @@ def _step(T, tok, op: list, res: core.CaseResult, mini: dict) -> bool:
         res.fail(f'C12/assigned-raw-unreadable[{name}]', f'{how}: from_raw_text(tok.raw_text == {tok.raw_text!r}) raises {type(ex).__name__}: {ex}', mini)
         return False
     if not _same(fresh.value, tok.value) or (ind and fresh.indent != tok.indent):
-        res.fail(f'C12/value-and-raw-disagree-after-assignment[{name}]',
+        # when the setter did exactly what a fresh from_value does, the fault lies in the format/parse pair
+        pair = kind != 'raw' and tok.raw_text == exp_raw and _same(tok.value, exp_value) and (not ind or tok.indent == exp_indent)
+        res.fail(f'C12/from_value-raw-reads-as-other-value[{name}]' if pair else f'C12/value-and-raw-disagree-after-assignment[{name}]',
                  f'{how}: tok.value == {tok.value!r}' + (f', tok.indent == {tok.indent!r}' if ind else '') +
                  f' but from_raw_text(tok.raw_text == {tok.raw_text!r}) has value {fresh.value!r}' + (f', indent {fresh.indent!r}' if ind else ''), mini)
     if kind != 'raw' and not is_lexeme(T.RULE, tok.raw_text):
@@ -820,7 +823,7 @@ def main(run: core.Run) -> None:
     for cls in ('EscapedString', 'BlockComment', 'InlineComment'):
         for head, tail in _heads(len(UNITS), L):
             items.append({'kind': 'strings', 'cls': cls, 'head': head, 'tail': tail})
-    run.run_cases(run_case, items, f'strings <= {L} units (values + lexeme candidates, parse_token, files)', chunk=4)
+    run.run_cases(run_case, items, f'strings <= {L} units (values + lexeme candidates, parse_token, files)', chunk=1)
     Lx = 3
     items = [{'kind': 'strings', 'cls': 'BlockComment', 'head': head, 'tail': tail, 'ext': True}
              for head, tail in _heads(len(UNITS_EXT), Lx) if (len(UNITS_EXT) - 1) in head or tail > 0]
